@@ -70,6 +70,12 @@ CHECKS.update({
         text="TLC exhaustively checks M => A, populated = fresh, no stale leaf survives, nothing loaded is lost and the OnlyExistKeys/UpdateKeys key laws for prior size 0..3/4 x document size 0..2/4 x estimate {zero, exact, larger} x 41 target types (sequence containers, vector<bool>, forward_list, valarray, adaptors, fixed arrays, bitset, tuple, sets, maps in three load modes, multimap, optional, smart pointers, strings, nested combinations) x placement x policy; every state (10k quick / 106k thorough) is replayed on the four real archives and each observation must equal what A prescribes, or what M prescribes under a listed named deviation.",
         note="Exhaustive only within the stated bounds and element alphabets; XML data-model deviations are named deviations, not part of A; null items are not generated for vector<bool>, bitset, integer sets and atomic; forced estimates on MsgPack/JSON/XML come from a forwarding array scope in the harness.",
         design_ref="DESIGN.md#c18"),
+    "C17": dict(
+        category="model_checking",
+        technique="TLA+ rules of validation (Validation.tla: A = documented semantics, M = AddValidationError-shaped) explored by TLC over classes x documents x placements x maxValidationErrors; every state exported with the prescribed observation and executed through the public API on MsgPack/JSON/XML/CSV archives with the real built-in validators; observations compared by equality (array positions normalised)",
+        text="TLC enumerates (a) one field x every ordered list of <=3 distinct validators (Required, Range, MinSize, MaxSize, Email, PhoneNumber, custom lambda, default/custom messages) x every status (at / just inside / just outside each bound, absent, null, mismatched-and-skipped, documented e-mail/phone examples) and (b) classes of <=3 (4) fields from a catalogue of outcome profiles x cap 0..3(4), in flat/nested/array/map/root-array placement; invariants ExceptionIffFailure, ExactlyFailingFields, ExactlyFailingRules, PassingFieldsLoaded, BuiltinSemantics, M refines A hold in every state; each state is replayed on every applicable archive and must yield exactly the prescribed path->messages map, exception and field values.",
+        note="Trusted: TLC, harness (public API, real validators), Validation.tla as the statement of the docs. Not prescribed: values of failing fields; XML with cap>0 when two array elements share a path; Email/PhoneNumber outside documented examples; array positions are abstracted as the property allows. Memory input only.",
+        design_ref="DESIGN.md#c17"),
 })
 
 NOT_YET = {
